@@ -85,13 +85,22 @@ type Cell struct {
 	Layout  int
 	Uris    bool // uri only: the entries are given inline (`uris:`), not in a file
 	YAML    bool // construct through the plugin registry from a YAML-shaped config map instead of NewProvider
-	Pre     bool    // the context is already cancelled when Run is called
-	FH      []HdrAt // headers declared by the source, in order
-	CH      []Hdr   // the `headers:` option, in order
-	Tick    time.Duration
+	Generic bool // (with YAML) plugin type `http` with the key `decoder: <kind>` instead of the per-format plugin type
+	// round 4: the consumer behaves like TWO instances sharing the provider: it looks at (and gun-touches) delivery k only
+	// after delivery k+1 has been acquired — an ammo is still in use while the next one is built and handed out.
+	Hold bool
+	// round 4: the provider is configured with MW middlewares (NewProvider route: the harness' probe middleware, which
+	// fails when UpdateRequest is called before InitMiddleware; registry route: the stock `header/date` middleware with
+	// headerName X-Mw-Date).  Every delivered request must carry exactly MW values of X-Mw-Date (checked here, reported
+	// through ReqBad; the header is taken out before the header text is made, so the model does not see it).
+	MW   int
+	Pre  bool    // the context is already cancelled when Run is called
+	FH   []HdrAt // headers declared by the source, in order
+	CH   []Hdr   // the `headers:` option, in order
+	Tick time.Duration
 	// round 3
-	CloseFail bool // closing the ammo file fails (file sources only)
-	Pad       int  // every entry's URI carries a query of this many bytes (invisible to the provider's logic: file size only)
+	CloseFail bool        // closing the ammo file fails (file sources only)
+	Pad       int         // every entry's URI carries a query of this many bytes (invisible to the provider's logic: file size only)
 	Both      bool        // BOTH a file and inline `uris:` are configured (NewProvider must reject that)
 	Big       map[int]int // entry i is Big[i] bytes big: uripost / http/json: its body; raw: its whole request
 }
@@ -109,11 +118,11 @@ type Obs struct {
 	SeqTags   []string
 	SeqHdr    []string // per acquired ammo: Host and headers of the request it carries, canonical (see HeaderString)
 	ReqBad    string   // first acquired ammo whose method / body is not the one of its entry ("" = none)
-	Cut       bool   // cap reached, context cancelled by the harness
-	Run       string // nil|canceled|limit|passes|noammo|other:<..>|noreturn
-	End       string // closed (the consumer saw ok=false) | blocked | spinning
-	Panic     string // the consumer goroutine panicked (in Acquire / Release)
-	Closed    int    // number of Close calls on the ammo file when the run was over (-1: no file — inline uris, constructor failed)
+	Cut       bool     // cap reached, context cancelled by the harness
+	Run       string   // nil|canceled|limit|passes|noammo|other:<..>|noreturn
+	End       string   // closed (the consumer saw ok=false) | blocked | spinning
+	Panic     string   // the consumer goroutine panicked (in Acquire / Release)
+	Closed    int      // number of Close calls on the ammo file when the run was over (-1: no file — inline uris, constructor failed)
 }
 
 // ---------------------------------------------------------------- the filesystem of the plugins
@@ -493,6 +502,26 @@ func cfgHeaderLines(c Cell) []string {
 	return ls
 }
 
+// MwHeader is the header the middlewares of a cell with MW > 0 add a value to.
+const MwHeader = "X-Mw-Date"
+
+// probeMW: a middleware of the harness.  Like the stock ones it adds a value to a header of the request; unlike
+// header/date it insists on having been initialised by Provider.Run before the first request.
+type probeMW struct{ inits atomic.Int64 }
+
+func (m *probeMW) InitMiddleware(ctx context.Context, log *zap.Logger) error {
+	m.inits.Add(1)
+	return nil
+}
+
+func (m *probeMW) UpdateRequest(req *http.Request) error {
+	if m.inits.Load() != 1 {
+		return fmt.Errorf("verif: middleware initialised %d times when the first request came", m.inits.Load())
+	}
+	req.Header.Add(MwHeader, "probe")
+	return nil
+}
+
 type ammoHolder struct {
 	Ammo core.Provider `config:"ammo"`
 }
@@ -518,6 +547,9 @@ func construct(c Cell, path string) (p core.Provider, err error) {
 		if !c.Uris {
 			conf.File = path
 		}
+		for i := 0; i < c.MW; i++ {
+			conf.Middlewares = append(conf.Middlewares, &probeMW{})
+		}
 		return httpprov.NewProvider(FS, conf)
 	}
 	// the way a pandora config file reaches the provider: map -> core/config.Decode -> registered plugin factory
@@ -526,6 +558,9 @@ func construct(c Cell, path string) (p core.Provider, err error) {
 		httpprov.Import(FS)
 	})
 	m := map[string]any{"type": pluginType(c.Kind)}
+	if c.Generic {
+		m = map[string]any{"type": "http", "decoder": string(decoderOf(c.Kind))}
+	}
 	if c.Uris || c.Both {
 		us := []any{}
 		for _, l := range URILines(c) {
@@ -551,6 +586,13 @@ func construct(c Cell, path string) (p core.Provider, err error) {
 			hs = append(hs, l)
 		}
 		m["headers"] = hs
+	}
+	if c.MW > 0 {
+		ms := []any{}
+		for i := 0; i < c.MW; i++ {
+			ms = append(ms, map[string]any{"type": "header/date", "headerName": MwHeader})
+		}
+		m["middlewares"] = ms
 	}
 	if c.Chosen != nil {
 		cs := []any{}
@@ -625,6 +667,10 @@ func identify(c Cell, a core.Ammo) identity {
 	if req == nil || req.URL == nil {
 		return identity{id: -1, tag: tag}
 	}
+	nmw := len(req.Header[MwHeader])
+	if c.MW > 0 {
+		req.Header.Del(MwHeader) // invisible to the model; counted below
+	}
 	r := identity{id: identOfPath(req.URL.Path), tag: tag, hdr: HeaderString(req)}
 	body := ""
 	if req.Body != nil {
@@ -633,6 +679,8 @@ func identify(c Cell, a core.Ammo) identity {
 	}
 	if req.Method != MethodOf(kind) {
 		r.bad = fmt.Sprintf("e%d:method_%s", r.id, req.Method)
+	} else if nmw != c.MW {
+		r.bad = fmt.Sprintf("e%d:middlewares_%d_of_%d", r.id, nmw, c.MW)
 	} else if r.id >= 0 && body != BodyOf(c, r.id) {
 		show := body
 		if len(show) > 24 {
@@ -783,16 +831,14 @@ func runOnce(c Cell) Obs {
 			consDone <- struct{}{}
 		}()
 		k, drained := 0, 0
-		for {
-			a, ok := p.Acquire()
-			if !ok {
-				ended.Store(true)
-				events.Add(1)
-				return
-			}
-			k++
-			if c.Cap == 0 || k <= c.Cap {
-				it := identify(c, a)
+		type heldAmmo struct {
+			a   core.Ammo
+			rec bool
+		}
+		// process: look at a delivery (and do to its request what a gun does), then release it
+		process := func(h heldAmmo) {
+			if h.rec {
+				it := identify(c, h.a)
 				mu.Lock()
 				obs.Seq = append(obs.Seq, it.id)
 				obs.SeqTags = append(obs.SeqTags, it.tag)
@@ -801,6 +847,39 @@ func runOnce(c Cell) Obs {
 					obs.ReqBad = it.bad
 				}
 				mu.Unlock()
+			}
+			p.Release(h.a)
+		}
+		var held *heldAmmo
+		for {
+			a, ok := p.Acquire()
+			if !ok {
+				if held != nil {
+					process(*held)
+					held = nil
+				}
+				ended.Store(true)
+				events.Add(1)
+				return
+			}
+			k++
+			rec := c.Cap == 0 || k <= c.Cap
+			if !rec {
+				drained++
+				if drained > drainMax {
+					return // never ends: reported as not closed
+				}
+			}
+			if c.Hold {
+				prev := held
+				held = &heldAmmo{a: a, rec: rec}
+				if prev != nil {
+					process(*prev)
+				}
+			} else {
+				process(heldAmmo{a: a, rec: rec})
+			}
+			if rec {
 				events.Add(1)
 				if c.Cap != 0 && k == c.Cap {
 					mu.Lock()
@@ -808,13 +887,7 @@ func runOnce(c Cell) Obs {
 					mu.Unlock()
 					cancel()
 				}
-			} else {
-				drained++
-				if drained > drainMax {
-					return // never ends: reported as not closed
-				}
 			}
-			p.Release(a)
 		}
 	}()
 
